@@ -130,7 +130,10 @@ fn header(g: &mut G) -> LefLibrary {
     lib.clearance_measure =
         g.of(&[Some(LefClearanceStyle::MaxXY), Some(LefClearanceStyle::Euclidean), None], "header.clearance");
     lib.fixed_mask = g.of(&[true, false], "header.fixedmask");
-    lib.macros = vec![simple_macro("m0")];
+    let mut m0 = simple_macro("m0");
+    // FIXEDMASK at library level and in a macro of the same library
+    m0.fixed_mask = g.of(&[false, true], "header.macro-fixedmask");
+    lib.macros = vec![m0];
     lib
 }
 
@@ -217,7 +220,7 @@ fn ext(g: &mut G) -> LefLibrary {
 
 fn symmetry_alts() -> Vec<Option<Vec<LefSymmetry>>> {
     use LefSymmetry::*;
-    vec![Some(vec![X, Y]), Some(vec![X]), Some(vec![Y]), Some(vec![R90]), Some(vec![X, Y, R90]), Some(vec![R90, X]), None]
+    vec![Some(vec![X, Y]), Some(vec![X]), Some(vec![Y]), Some(vec![R90]), Some(vec![X, Y, R90]), Some(vec![R90, X]), Some(vec![]), None]
 }
 
 fn site(g: &mut G) -> LefLibrary {
@@ -444,6 +447,7 @@ fn macro_attrs(g: &mut G) -> LefLibrary {
     m.symmetry = g.of(&symmetry_alts(), "macro.sym");
     m.site = g.opt_name("core_site", "macro.site");
     m.pins = vec![simple_pin("p0", "met1", rect("0.1", "0.2", "0.3", "0.4"))];
+    lib.fixed_mask = g.of(&[false, true], "macro.lib-fixedmask");
     lib.macros = vec![m, simple_macro("m_after")];
     lib
 }
